@@ -222,7 +222,7 @@ func coqCase(c *Case, res *Result) (string, string) {
 // property's clauses are reported by that property's command).
 var clauses = map[string]map[string]bool{
 	"C04": {"stale-output-at-quiescence": true, "no-output-at-quiescence": true, "runs-overlap": true, "compute-after-stop": true,
-		"run-in-progress-when-stop-returned": true, "no-quiescence": true, "panic-in-harness-or-code-under-test": true},
+		"run-in-progress-when-stop-returned": true, "no-quiescence": true, "stop-does-not-return": true, "panic-in-harness-or-code-under-test": true},
 	"C08": {"stale-output-at-quiescence": true, "cleanup-ran-twice": true, "cleanup-not-exactly-once": true,
 		"superseded-resource-not-cleaned": true, "timer-cleanup-not-exactly-once": true,
 		"resource-released-while-current-computation-depends-on-it": true,
@@ -328,6 +328,22 @@ func Main(prop string) {
 		}
 		if c.DelayUs > 0 {
 			run.Hist("write-then-read-delay>0")
+		}
+		for _, rr := range c.RRs {
+			for _, o := range rr.Prog {
+				if o.Kind == "cache" && o.Alt && len(o.Body) == 1 {
+					run.Hist("shape:cache-key-left-out-for-a-run-then-asked-for-again")
+				}
+			}
+		}
+		if res.LiveAtQuiet > 0 {
+			run.Hist("premise:some-rerunner-neither-stopped-nor-failed-at-the-first-quiescent-point")
+		}
+		if res.CleanedAtQuiet > 0 {
+			run.Hist("premise:some-superseded-resource-without-dependants-at-the-first-quiescent-point")
+		}
+		if res.Kinds["reactive.run.proceed"] > len(c.RRs) {
+			run.Hist("premise:re-run-interval-expired-after-the-first-runs")
 		}
 		if res.DumpBroken {
 			run.Hist("dump:unavailable")
